@@ -37,7 +37,8 @@ RULE = ("case kinds: stats (error arrays 1..2e4 values through the model, up to 
         "every pairing mode, stationary reference segments for the ratio filter) compared with the bookkeeping model: "
         "stored pose ids, per-entry pose ids, timestamps, seconds, arc lengths, label and title. "
         "reuse (ONE metric object: 2-3 process_data calls on different trajectories with change_unit / get_result in "
-        "between, every result judged on that call's data alone); array flavours for statistics and change_unit "
+        "between, every result judged on that call's data alone; refused batches - wrong tuple length, pose-count mismatch, "
+        "no pairs - after a conversion must leave unit, values, label, statistics and later conversions untouched); array flavours for statistics and change_unit "
         "(strided view, read-only, int64); structured sizes 1, 2, 3, 2^k-1, 2^k, 2^k+1; trajectories built from "
         "positions+quaternions or from pose matrices with cached views read before the call, duplicate / unsorted "
         "timestamps, awkward names. non-trivial = more than one distinct value / an allowed non-identity conversion / an RPE with skipped poses")
@@ -228,6 +229,20 @@ def gen_cases(ctx):
         {"op": "P", "traj": {"ts": [0.0, 1.0, 2.0], "ref_xyz": [[0.0, 0, 0], [1.0, 0, 0], [2.0, 0, 0]], "est_xyz": [[2.0, 0, 0], [3.0, 0, 0], [4.0, 0, 0]],
                              "ref_q": [[1.0, 0, 0, 0]] * 3, "est_q": [[1.0, 0, 0, 0]] * 3}},
         {"op": "R"}]}
+    # good batch -> change_unit -> refused batch (each class) -> inspect, convert again, inspect, new batch
+    for metric in ("ape", "rpe"):
+        for rel in ("translation_part", "point_distance", "rotation_angle_deg", "rotation_angle_rad", "full_transformation"):
+            nat = SPEC_REL_UNIT_APE[rel]
+            fam = list(SPEC_LENGTH) if nat in SPEC_LENGTH else list(SPEC_ANGLE) if nat in SPEC_ANGLE else UNITS
+            for why in ("tuple1", "tuple3", "mismatch") + (("nopairs",) if metric == "rpe" else ()):
+                for _ in range(1 if not th else 6):
+                    u1 = r.choice([u for u in fam if u != nat])
+                    steps = [{"op": "P", "traj": gen_traj(r, r.randint(3, 6), r.random() < 0.5)}, {"op": "C", "unit": u1},
+                             {"op": "X", "why": why, "traj": gen_traj(r, r.randint(3, 5), True)}, {"op": "R"},
+                             {"op": "C", "unit": r.choice(fam)}, {"op": "R"}]
+                    if r.random() < 0.5:
+                        steps += [{"op": "P", "traj": gen_traj(r, r.randint(3, 6), False)}, {"op": "R"}]
+                    yield {"kind": "reuse", "metric": metric, "rel": rel, "steps": steps, "refusal": why}
     for _ in range(80 if not th else 800):
         metric = r.choice(["ape", "rpe"])
         rel = r.choice(["translation_part", "translation_part", "point_distance", "rotation_angle_deg", "rotation_angle_rad",
@@ -240,6 +255,9 @@ def gen_cases(ctx):
             steps.append({"op": "P", "traj": gen_traj(r, r.randint(3, 6), grid)})
             for _ in range(r.randint(0, 2)):
                 steps.append(r.choice([{"op": "C", "unit": r.choice(fam)}, {"op": "C", "unit": r.choice(UNITS)}, {"op": "R"}]))
+            if r.random() < 0.3:
+                steps.append({"op": "X", "why": r.choice(["tuple1", "tuple3", "mismatch"] + (["nopairs"] if metric == "rpe" else [])),
+                              "traj": gen_traj(r, r.randint(3, 5), True)})
             steps.append({"op": "R"})
         yield {"kind": "reuse", "metric": metric, "rel": rel, "steps": steps}
     if th:
@@ -486,7 +504,7 @@ def big_errors(case):
 def impl_reuse(case):
     """one metric object over the whole history; the expected fresh values of each process_data come from a
     new metric object on identically built twins"""
-    from evo.core import metrics
+    from evo.core import metrics, filters
     from evo.core.units import Unit
     rel = metrics.PoseRelation[case["rel"]]
 
@@ -501,6 +519,24 @@ def impl_reuse(case):
                 twin = mk()
                 twin.process_data((build(st["traj"], "ref"), build(st["traj"], "est")))
                 out.append({"fresh": fl(twin.error), "fresh_unit": twin.unit.name})
+            elif st["op"] == "X":
+                ref, est = build(st["traj"], "ref"), build(st["traj"], "est")
+                if st["why"] == "tuple1":
+                    data = (ref,)
+                elif st["why"] == "tuple3":
+                    data = (ref, est, est)
+                elif st["why"] == "mismatch":
+                    est.reduce_to_ids(list(range(est.num_poses - 1)))
+                    data = (ref, est)
+                else:                                   # nopairs: a single pose has no pair (RPE)
+                    ref.reduce_to_ids([0])
+                    est.reduce_to_ids([0])
+                    data = (ref, est)
+                try:
+                    m.process_data(data)
+                    out.append({"refused": False})
+                except (metrics.MetricsException, filters.FilterException) as e:
+                    out.append({"refused": True, "exc": type(e).__name__})
             elif st["op"] == "C":
                 try:
                     m.change_unit(unit_of(st["unit"]))
@@ -550,7 +586,8 @@ def model_lines(case, impl):
         nat = (SPEC_REL_UNIT_APE if case["metric"] == "ape" else SPEC_REL_UNIT_RPE)[case["rel"]]
         toks = []
         for st, so in zip(case["steps"], impl["steps"]):
-            toks.append("P " + ratlist(so["fresh"]) if st["op"] == "P" else "C " + st["unit"] if st["op"] == "C" else "R")
+            toks.append("P " + ratlist(so["fresh"]) if st["op"] == "P" else "C " + st["unit"] if st["op"] == "C"
+                        else "X" if st["op"] == "X" else "R")
         return [f"C12 reuse {hexs(case['metric'].upper())} {nat} " + " ".join(toks)]
     if k == "stats":
         return ["C12 stats " + ratlist(case["e"])]
@@ -972,6 +1009,12 @@ def judge_reuse(ctx, case, impl, outs):
             exp_vals, exp_unit = [dec(x) for x in so["fresh"]], nat
             n_proc += 1
             converted_earlier, conv_since_p = converted_earlier or conv_since_p, False
+        elif st["op"] == "X":
+            # a refused batch: nothing about the object may change (exp_vals / exp_unit stay)
+            ctx.count("branch", "reuse-refused-" + st["why"] + ("-after-conversion" if conv_since_p else ""))
+            if not so["refused"]:
+                ctx.fail(case, "malformed-batch-refused", f"step {k}: process_data accepted a batch of class {st['why']}")
+                return
         elif st["op"] == "C":
             sf = spec_factor(exp_unit, st["unit"])
             if sf is not None and exp_vals:
